@@ -54,10 +54,11 @@ def bit(x):
 
 
 def popcount(b, w=64):
-    r = BV(0, w)
+    """number of set bits, computed in 8 bits (the universe is <= 64 ids) and zero-extended"""
+    r = BV(0, 8)
     for q in range(b.size()):
-        r = r + z3.ZeroExt(w - 1, z3.Extract(q, q, b))
-    return r
+        r = r + z3.ZeroExt(7, z3.Extract(q, q, b))
+    return z3.ZeroExt(w - 8, r) if w > 8 else r
 
 
 def lowest(b):
